@@ -18,6 +18,7 @@ THOROUGH_RUNS = 120000
 MAX_EXCLUDED_FRACTION = 0.3
 SHRINK_RUNS = 300
 SHRINK_S = 60
+FIDELITY_CASES = {'quick': 4, 'thorough': 24}   # real-pool executions replayed in the simulator
 RULE = ('one run = one top-level call of a sift variant with a drawn option set, delivery route and pool schedule; '
         'distinct = distinct tuple (variant, route, supplied groups, stop rule, interpolation method, extrema keys '
         'supplied, start method, canonical job->worker partition of the first two pool batches); non-trivial = all '
